@@ -203,6 +203,25 @@ pub fn check_base(r: &mut Report, b: &Base, values: &[u8], workers: &[usize]) {
                     r.dev(format!("C18/{pool:?}/index-depends-on-frame-length"), "length-dependence", || json!({"pool": format!("{pool:?}"), "base": b.name, "cut": cut, "workers": w}));
                 }
             }
+            // ... and extensions: the same frame with more payload behind it, up to and beyond what a 16-bit length can
+            // express (capture "super-frames" of offloading NICs and loopback devices carry more than 65535 bytes)
+            if b.frame.len() >= full_identity_len {
+                for iplen in [1500usize, 9000, 65535, 65536, 65537, 65536 + 19, 65536 + 20, 65536 + 23, 65536 + 24, 65536 + 59, 65536 + 63, 65536 + 64, 70000, 131072, 131072 + 20] {
+                    let total = b.ip + iplen;
+                    if total <= b.frame.len() {
+                        continue;
+                    }
+                    for fill in [0u8, 0xff] {
+                        let mut f = b.frame.clone();
+                        f.resize(total, fill);
+                        r.transitions += 1;
+                        let idx = index(pool, &f, w);
+                        if idx != base_idx {
+                            r.dev(format!("C18/{pool:?}/index-depends-on-frame-length"), "length-dependence", || json!({"pool": format!("{pool:?}"), "base": b.name, "ip_part_length": iplen, "fill": fill, "workers": w, "index_before": base_idx, "index_after": idx}));
+                        }
+                    }
+                }
+            }
             // (3) direction: HTTP must not distinguish the two directions of a connection
             if pool == Pool::Http {
                 let sw = swapped(b);
@@ -229,7 +248,7 @@ pub fn run(thorough: bool) -> Outcome {
     });
     Outcome {
         report: rep,
-        rule: "68 base frames (IPv4 header-length fields 0..15 and IPv6, Ethernet and raw, SYN and data segment): every truncation x every worker count 1..64 (valid index, deterministic, complete frames never discarded); every byte that is not structural (version/IHL, protocol, ethertype) rewritten to every value of the tier's value set x worker counts: the index may change only for identity bytes (TCP: source address; HTTP/TLS: addresses and ports); truncations keeping the identity give the same index; HTTP index equal for the swapped direction; distinct = distinct (pool, workers, index) outcomes".into(),
+        rule: "68 base frames (IPv4 header-length fields 0..15 and IPv6, Ethernet and raw, SYN and data segment): every truncation x every worker count 1..64 (valid index, deterministic, complete frames never discarded); every byte that is not structural (version/IHL, protocol, ethertype) rewritten to every value of the tier's value set x worker counts: the index may change only for identity bytes (TCP: source address; HTTP/TLS: addresses and ports); truncations keeping the identity give the same index, and so do extensions of the frame to IP-part lengths 1500 .. 65535, 65536 .. 65536+64, 70000, 131072(+20); HTTP index equal for the swapped direction; distinct = distinct (pool, workers, index) outcomes".into(),
         exhaustive: true,
         bounds: json!({"bases": bs.len(), "byte_values": values.len(), "worker_counts_for_rewrites": workers.len()}),
     }
